@@ -1659,6 +1659,67 @@ def nfunc(repo, rel, qualname):
     return normalised(repo, repo.func(rel, qualname))
 
 
+def at_defaults(fi, established):
+    """fi with its NEW optional parameters (not in `established`, constant default) fixed at their defaults: `p is None` tests are
+    decided, other reads of a non-None default are replaced by the constant.  -> (NormFunc, {param: default node}).  What an explicit
+    argument means is judged at the call sites that pass one."""
+    defaults = fi.defaults()
+    extra = {p: d for p, d in defaults.items() if p not in established and p != 'self' and isinstance(d, ast.Constant)}
+    if not extra:
+        return fi, {}
+    node = clone(fi.node)
+
+    def decide(t):
+        if isinstance(t, ast.Compare) and len(t.ops) == 1 and isinstance(t.left, ast.Name) and t.left.id in extra \
+                and isinstance(t.comparators[0], ast.Constant) and t.comparators[0].value is None and isinstance(t.ops[0], (ast.Is, ast.IsNot, ast.Eq, ast.NotEq)):
+            is_none = extra[t.left.id].value is None
+            return is_none == isinstance(t.ops[0], (ast.Is, ast.Eq))
+        if isinstance(t, ast.UnaryOp) and isinstance(t.op, ast.Not):
+            d = decide(t.operand)
+            return None if d is None else not d
+        return None
+
+    def fold(stmts, assigned):
+        out = []
+        for st in stmts:
+            if isinstance(st, ast.If):
+                d = decide(st.test) if not ({n.id for n in ast.walk(st.test) if isinstance(n, ast.Name)} & assigned) else None
+                if d is not None:
+                    out.extend(fold(st.body if d else st.orelse, assigned))
+                    continue
+                st.body = fold(st.body, assigned)
+                st.orelse = fold(st.orelse, assigned)
+            elif isinstance(st, (ast.For, ast.While, ast.With, ast.Try)):
+                for f in ('body', 'orelse', 'finalbody'):
+                    if getattr(st, f, None):
+                        setattr(st, f, fold(getattr(st, f), assigned))
+            else:
+                class X(ast.NodeTransformer):
+                    def visit_IfExp(self, n):
+                        n = self.generic_visit(n)
+                        d = decide(n.test) if not ({x.id for x in ast.walk(n.test) if isinstance(x, ast.Name)} & assigned) else None
+                        return n if d is None else (n.body if d else n.orelse)
+
+                    def visit_Name(self, n):
+                        if isinstance(n.ctx, ast.Load) and n.id in extra and n.id not in assigned and extra[n.id].value is not None:
+                            return ast.copy_location(clone(extra[n.id]), n)
+                        return n
+                st = X().visit(st)
+            for n in ast.walk(st):
+                if isinstance(n, ast.Name) and isinstance(n.ctx, ast.Store) and n.id in extra:
+                    assigned.add(n.id)
+            out.append(st)
+        return out
+    node.body = fold(node.body, set())
+    ast.fix_missing_locations(node)
+    for n in ast.walk(node):
+        for ch in ast.iter_child_nodes(n):
+            ch._parent = n
+    node._parent = getattr(fi.node, '_parent', None)
+    nf = NormFunc(getattr(fi, 'original', fi), node, getattr(fi, 'inlined', []), getattr(fi, 'memo_issues', ()))
+    return nf, extra
+
+
 def normalised_keeping(repo, fi, names):
     """normal form of fi in which calls of the module-level helpers `names` stay calls (not cached)"""
     nz = Normaliser(repo, fi)
